@@ -28,7 +28,14 @@ def check(seed):
     from perception_eval.common.schema import FrameID
     from perception_eval.common.transform import HomogeneousMatrix, TransformDict
     rnd = random.Random(seed)
-    t = lambda: tuple(rnd.uniform(-50, 50) for _ in range(3))
+    # translations / positions are given as floats, as whole numbers (ints, the way configuration files and tests spell them) or mixed
+    def t():
+        k = rnd.random()
+        if k < 0.25:
+            return tuple(rnd.randint(-50, 50) for _ in range(3))
+        if k < 0.35:
+            return (rnd.randint(-50, 50), rnd.uniform(-50, 50), 0)
+        return tuple(rnd.uniform(-50, 50) for _ in range(3))
     ab = HomogeneousMatrix(t(), rq(rnd), src="base_link", dst=FrameID.MAP)
     bc = HomogeneousMatrix(np.array(t()), rq(rnd).rotation_matrix if rnd.random() < 0.5 else rq(rnd), src=FrameID.MAP, dst="lidar_top")
     p, q = t(), rq(rnd)
